@@ -23,6 +23,17 @@ Definition step1 (f : N -> bool) (p : nat) : list nat :=
 
 Definition dot_ok (b : N) : bool := negb (N.eqb b 10).
 
+(* ^ : at the start of the text or just behind a newline.  $ : at the end of the text or just before a newline
+   (vore also accepts the position before a carriage return + newline pair; C14 is about texts without \r) *)
+Definition at_bol (p : nat) : bool :=
+  Nat.eqb p 0 || match nth_error text (p - 1) with Some b => N.eqb b 10 | None => false end.
+Definition at_eol (p : nat) : bool :=
+  Nat.eqb p (length text) ||
+  match nth_error text p with
+  | Some b => N.eqb b 10 || (N.eqb b 13 && match nth_error text (p + 1) with Some b2 => N.eqb b2 10 | None => false end)
+  | None => false
+  end.
+
 Inductive ra_ord : ratom -> nat -> list nat -> Prop :=
 | ro_char c p : ra_ord (RChar c) p (step1 (N.eqb c) p)
 | ro_esc c p : ra_ord (REscChar c) p (step1 (N.eqb c) p)
@@ -31,6 +42,8 @@ Inductive ra_ord : ratom -> nat -> list nat -> Prop :=
 | ro_bracket neg items p : ra_ord (RBracket neg items) p (step1 (fun b => xorb (existsb (item_has b) items) neg) p)
 | ro_group k body p l : rd_ord body p l -> ra_ord (RGroup k body) p l
 with rl_ord : rlit -> nat -> list nat -> Prop :=
+| ro_bol p : rl_ord RBol p (if at_bol p then [p] else [])
+| ro_eol p : rl_ord REol p (if at_eol p then [p] else [])
 | ro_plain a p l : ra_ord a p l -> rl_ord (RQ a None) p l
 | ro_quant a q lz mn mx p l : quant_bounds q = Some (mn, mx) -> rq_ord a mn mx lz 0 p l -> rl_ord (RQ a (Some (q, lz))) p l
 with rp_ord : rpat -> nat -> list nat -> Prop :=
@@ -66,21 +79,48 @@ Inductive rscan (d : rdis) : nat -> list (nat * nat) -> Prop :=
 
 End Order.
 
-(* the expressions the order theorem covers: regular expressions proper (Spec/RegexLang.v) whose bracket
-   classes do not list a byte twice (an overlapping class like [aa-c] makes the engine's alternatives
-   repeat a position; the repetition cannot change what is found first, but the lists differ) *)
+(* The expressions the order theorems cover: everything of the supported subset but back-references -
+   characters (ASCII), `.`, \d \s classes, bracket classes (non-empty, ASCII, and, when not negated, listing
+   no byte twice: an overlapping class like [aa-c] makes the engine's alternatives repeat a position, which
+   cannot change what is found first but makes the lists differ), groups of all three kinds, ^ and $,
+   quantifiers with m <= n over atoms that cannot match the empty string (the property's proviso), here in
+   its syntactic form [nn_atom]: the usual non-nullability of a regular expression. *)
 Fixpoint hits (b : N) (items : list citem) : nat :=
   match items with [] => 0 | c :: r => (if item_has b c then 1 else 0) + hits b r end.
 
-Fixpoint ord_atom (a : ratom) : Prop :=
+Fixpoint nn_atom (a : ratom) : bool :=
   match a with
-  | RBracket false items => forall b, hits b items <= 1
-  | RGroup _ body => ord_disj body
-  | _ => True
+  | RGroup _ body => nn_disj body
+  | RBackNum _ | RBackNum2 _ _ | RBackName _ => false
+  | _ => true
   end
-with ord_lit (l : rlit) : Prop :=
-  match l with RQ a _ => ord_atom a | _ => True end
-with ord_pat (p : rpat) : Prop :=
-  match p with POne l => ord_lit l | PAlt l r => ord_lit l /\ ord_pat r end
-with ord_disj (d : rdis) : Prop :=
-  match d with DNil => True | DCons p r => ord_pat p /\ ord_disj r end.
+with nn_lit (l : rlit) : bool :=
+  match l with
+  | RBol | REol => false
+  | RQ a None => nn_atom a
+  | RQ a (Some (q, _)) => nn_atom a && match quant_bounds q with Some (mn, _) => Nat.ltb 0 mn | None => false end
+  end
+with nn_pat (p : rpat) : bool :=
+  match p with POne l => nn_lit l | PAlt l r => nn_lit l && nn_pat r end
+with nn_disj (d : rdis) : bool :=
+  match d with DNil => false | DCons p r => nn_pat p || nn_disj r end.
+
+Fixpoint oreg_atom (a : ratom) : Prop :=
+  match a with
+  | RChar c | REscChar c => (c < 128)%N
+  | RDot | RCls _ _ => True
+  | RBracket neg items => items <> [] /\ Forall item_ascii items /\ (neg = false -> forall b, hits b items <= 1)
+  | RBackNum _ | RBackNum2 _ _ | RBackName _ => False
+  | RGroup _ body => oreg_disj body
+  end
+with oreg_lit (l : rlit) : Prop :=
+  match l with
+  | RBol | REol => True
+  | RQ a None => oreg_atom a
+  | RQ a (Some (q, _)) => oreg_atom a /\ nn_atom a = true /\
+                          exists mn mx, quant_bounds q = Some (mn, mx) /\ (mx = -1 \/ Z.of_nat mn <= mx)%Z
+  end
+with oreg_pat (p : rpat) : Prop :=
+  match p with POne l => oreg_lit l | PAlt l r => oreg_lit l /\ oreg_pat r end
+with oreg_disj (d : rdis) : Prop :=
+  match d with DNil => True | DCons p r => oreg_pat p /\ oreg_disj r end.
